@@ -338,13 +338,16 @@ TToggle == /\ Is("tp") /\ phase = "run"
 (* back (laid out again: H x W as given, empty, t.previewed.version = 0) and - THE RULE - the preview is restarted    *)
 (* for the line under the cursor NOW: the action announces a request (`enq` follows), whatever lines are still held;   *)
 (* the quiescence condition then demands the command for the present state.  CODE-DERIVED: every change-preview-window *)
-(* forces `following` back to the option.                                                                              *)
+(* forces `following` back to the option - and the WRAP MODE: the action rebuilds t.previewOpts from the options the   *)
+(* finder was started with (t.initialPreviewOpts) before it applies its argument, so what toggle-preview-wrap had       *)
+(* switched is gone (Ev.wrap0 = the session's --preview-window wrap setting; none of the layouts mentions wrap).        *)
 TCpw == /\ Is("cpw") /\ phase = "run"
         /\ IF Ev.hidden
            THEN /\ vis /\ vis' = FALSE /\ UNCHANGED geomVars /\ scr' = [r \in 1..H |-> ""]
            ELSE /\ ~vis /\ vis' = TRUE /\ H' = Ev.H /\ W' = Ev.W /\ scr' = [r \in 1..Ev.H |-> ""]
         /\ pd' = [pd EXCEPT !.ver = 0] /\ fol' = Forced(follow)
-        /\ UNCHANGED <<sid, gens, tmpls, kinds, talls, follow, issued, expectSig, reqs, cur, nsent, nkill, lastDisp, idents, wrap, pver, plv, pn, poff, started,
+        /\ wrap' = (IF "wrap0" \in DOMAIN Ev THEN Ev.wrap0 ELSE wrap)        \* (traces recorded before the field existed: as before)
+        /\ UNCHANGED <<sid, gens, tmpls, kinds, talls, follow, issued, expectSig, reqs, cur, nsent, nkill, lastDisp, idents, pver, plv, pn, poff, started,
                        pvSeq, quitSig, dev, phase>>
 
 (* Terminal.UpdateList with a revision that is not compatible with the one on display: the items are replaced.  What *)
